@@ -39,7 +39,44 @@ def handlers(P):
     return sorted(b["q"] for b in P.bodies if b["crate"] == "versatiles" and any("::Uri" in t for t in b.get("in_t", ())) and "Response<" in b.get("out_t", ""))
 
 
+def server_wiring_rule(ck, P):
+    """R-WIRING: every tile source added to the server is served: add_tile_source keeps the source it built (push on every successful
+    path), start() mounts the tile routes (and the static routes) on every path before it serves, add_tile_sources_to_app registers a
+    route for every source in the list and merges it into the application."""
+    from . import mvt
+    ats = [b for b in P.bodies if b["q"].endswith("tile_server::TileServer::add_tile_source")]
+    st = [b for b in P.bodies if b["q"].endswith("tile_server::TileServer::start")]
+    app = [b for b in P.bodies if b["q"].endswith("tile_server::TileServer::add_tile_sources_to_app")]
+    if not ck.anchor("R-WIRING", "TileServer::add_tile_source/start/add_tile_sources_to_app", ats + st + app, 3):
+        return
+    b = ats[0]
+    made = [y for y in ir.walk_nodes(b["body"]) if y.get("k") == "let" and "init" in y and ir.contains(y["init"], lambda z: z.get("k") == "call" and (z.get("q") or "").endswith("TileSource::from"))]
+    sh = made[0]["pat"]["hid"] if made and made[0]["pat"].get("k") == "bind" else None
+    cnt = mvt.exit_counts(P, b, lambda y: 1 if (y.get("k") == "mcall" and y.get("name") == "push" and ir.place_str(y["recv"]) == "self.tile_sources" and y.get("a") and ir.local_hid(y["a"][0]) == sh) else None)
+    ck.check(sh is not None and cnt == {1}, "R-WIRING", b["q"], "the TileSource built from the reader is pushed to self.tile_sources exactly once on every successful path",
+             "add_tile_source does not keep the source it built on every successful path (pushes per call: %s)" % sorted(cnt), ir.loc(b))
+    b = st[0]
+    for nm in ("add_tile_sources_to_app", "add_static_sources_to_app"):
+        c = mvt.exit_counts(P, {"body": ir.fn_block(b)}, lambda y, nm=nm: 1 if (y.get("k") == "mcall" and (ir.callee(y) or "").endswith("TileServer::" + nm)) else None)
+        asg = [y for y in ir.walk_nodes(b["body"]) if y.get("k") == "assign" and ir.contains(y["r"], lambda z, nm=nm: z.get("k") == "mcall" and (ir.callee(z) or "").endswith("TileServer::" + nm))]
+        serve = [y for y in ir.walk_nodes(b["body"]) if y.get("k") == "call" and (y.get("q") or "").startswith("axum::serve")]
+        used = bool(asg) and bool(serve) and ir.contains(serve[0], lambda z: z.get("k") == "path" and z.get("r") == "local" and z.get("hid") == ir.local_hid(asg[0]["l"]))
+        ck.check(c == {1} and used, "R-WIRING", b["q"] + "|" + nm, "start() mounts %s on the router it serves, on every path" % nm.replace("add_", "").replace("_to_app", ""),
+                 "start() does not mount the routes of %s on the served router (calls per start: %s)" % (nm, sorted(c)), ir.loc(b))
+    b = app[0]
+    lp = [n for n in ir.walk_nodes(b["body"]) if n.get("k") == "for" and ir.place_str(n["iter"]).startswith("self.tile_sources")]
+    okl = False
+    if len(lp) == 1:
+        adapt = [y["name"] for y in ir.walk_nodes(lp[0]["iter"]) if y.get("k") == "mcall" and y.get("name") not in ("iter", "into_iter", "clone", "iter_mut", "cloned", "to_vec")]
+        esc = [y["k"] for y in ir.walk_nodes(lp[0]["body"]) if y.get("k") in ("break", "continue")]
+        mg = mvt.exit_counts(P, {"body": lp[0]["body"]}, lambda y: 1 if (y.get("k") == "mcall" and y.get("name") in ("merge", "nest", "route", "route_service", "nest_service") and "Router" in ((ir.strip(y["recv"]).get("t") or ""))
+                                                                      and ir.local_hid(y["recv"]) is not None) else None)
+        okl = not adapt and not esc and bool(mg) and 0 not in mg
+    ck.check(okl, "R-WIRING", b["q"], "a route is registered and merged for every tile source in the list", "not every tile source of the list gets its route", ir.loc(b))
+
+
 def rules(ck, P):
+    server_wiring_rule(ck, P)
     leaves = comp.leaf_summaries(P)
     # ---------------- E-COMP-OPT
     q = UTIL + "optimize_compression"
